@@ -59,7 +59,7 @@ func main() {
 		os.Exit(cmdRPart(os.Args[2:]))
 	case "script":
 		// debug: print the baseline transcript of an engine-R script
-		for _, sc := range []*replica.Script{checks.ScriptStorage(false), checks.ScriptStaking(), checks.ScriptStorage(true), checks.ScriptTies()} {
+		for _, sc := range checks.AllScripts() {
 			if len(os.Args) > 2 && sc.Name == os.Args[2] {
 				tr, pos, _, ntx := replica.Run(sc, nil)
 				for _, it := range tr.Items {
@@ -163,7 +163,7 @@ func cmdRPart(args []string) int {
 		return 2
 	}
 	var sc *replica.Script
-	for _, s := range []*replica.Script{checks.ScriptStorage(false), checks.ScriptStaking(), checks.ScriptTies(), checks.ScriptStorage(true)} {
+	for _, s := range checks.AllScripts() {
 		if s.Name == args[0] {
 			sc = s
 		}
@@ -304,7 +304,7 @@ func cmdCheck(args []string) int {
 	var confBlocks int64
 	type scStat struct {
 		States, Transitions, NonTrivial, DepthDone, MaxDepth, Conform int
-		Exhaustive                                                     bool
+		Exhaustive                                                    bool
 	}
 	perScenario := map[string]*scStat{}
 
